@@ -60,7 +60,9 @@ Fixes == [ f0 |-> [vars |-> {}, form |-> "string"], f1 |-> [vars |-> {"A"}, form
            f7 |-> [vars |-> {"C", "D"}, form |-> "string"],
            \* an undefined variable whose name BEGINS with the name of a transformation (X): still undefined
            f8 |-> [vars |-> {"XY"}, form |-> "string"],
-           f9 |-> [vars |-> {"N"}, form |-> "string"] ]
+           f9 |-> [vars |-> {"N"}, form |-> "string"],
+           \* the object form WITH an expansion, using a variable that a transformation produces
+           f10 |-> [vars |-> {"X"}, form |-> "object"] ]
 \* r3: the rewriter's fix uses a variable captured by the enclosing rule (it sees the enclosing environment)
 Rews == [ r0 |-> <<>>, r1 |-> [x \in {"R1"} |-> [hasFix |-> TRUE, refs |-> {}]], r2 |-> [x \in {"R1"} |-> [hasFix |-> FALSE, refs |-> {}]],
           r3 |-> [x \in {"R1"} |-> [hasFix |-> TRUE, refs |-> {}]],
@@ -78,7 +80,7 @@ vars == <<m, u, c, t, f, r>>
 \* the variants added for references inside nthChild.ofRule / in constraints / in rewriters are combined with a
 \* reduced set of the other parts; all earlier variants are combined with each other in full
 ExtM == {"m6", "m7", "m8"}  ExtU == {"u13"}  ExtC == {"c4", "c5", "c6"}  ExtR == {"r4", "r5", "r6", "r7", "r8"}
-Small == [m |-> {"m1", "m2"}, u |-> {"u0", "u1", "u2"}, c |-> {"c0", "c1"}, t |-> {"t0", "t1", "t7"}, f |-> {"f0", "f1", "f2", "f7", "f8", "f9"}, r |-> {"r0", "r1"}]
+Small == [m |-> {"m1", "m2"}, u |-> {"u0", "u1", "u2"}, c |-> {"c0", "c1"}, t |-> {"t0", "t1", "t7"}, f |-> {"f0", "f1", "f2", "f7", "f8", "f9", "f10"}, r |-> {"r0", "r1"}]
 Init == \/ /\ m \in DOMAIN Mains \ ExtM /\ u \in DOMAIN Utils \ ExtU /\ c \in DOMAIN Cons \ ExtC
            /\ t \in DOMAIN Trans /\ f \in DOMAIN Fixes \ {"f7", "f9"} /\ r \in DOMAIN Rews \ ExtR
         \/ /\ m \in Small.m \cup ExtM /\ u \in Small.u \cup ExtU /\ c \in Small.c \cup ExtC
